@@ -123,10 +123,10 @@ def facts_dir(config="main", repo=REPO, quiet=False):
             json.dump({"tree": th, "config": config, "wall_s": round(time.time() - t0, 1), "crates": sorted(got)}, fh)
         shutil.rmtree(out, ignore_errors=True)
         os.rename(tmp, out)
-        # keep the cache small: drop fact dirs other than the 6 most recent
+        # keep the cache small: drop fact dirs other than the 16 most recent
         base = os.path.join(CACHE, "facts")
         ds = sorted((os.path.getmtime(os.path.join(base, d)), d) for d in os.listdir(base))
-        for _, d in ds[:-6]:
+        for _, d in ds[:-16]:
             shutil.rmtree(os.path.join(base, d), ignore_errors=True)
         if not quiet:
             print("[extract] done in %.1fs" % (time.time() - t0), file=sys.stderr)
